@@ -885,8 +885,11 @@ CASES.append({'name': 'ben48r1-shared-helper-not-strict', 'props': ['C18'], 'exp
 
 # round 19 of seeded changes (base 9308c57; six, the agents asked to finish within ten minutes)
 seeded('seeded-RJC01-prm-start-validity-cached-across-problems', ['C01'], ['C01.gate'])
-seeded('seeded-RJC04-rn-interpolate-unrolled-lane-slip', ['C06'], ['C06.loops'])                 # named only incidentally, see meta.json
+seeded('seeded-RJC04-rn-interpolate-unrolled-lane-slip', ['C10', 'C06'], ['C10.component'])    # first reported by C06.loops only (an incidental site)
 seeded('seeded-RJC08-prm-context-helper-unwraps-the-checker', ['C08'], ['C08.panics'])
 seeded('seeded-RJC09-rn-distance-unrolled-lane-slip', ['C09'], ['C09.range'])
 seeded('seeded-RJC12-so3-centre-fast-path-skips-normalise', ['C12'], ['C12.centre'])
 seeded('seeded-RJC14-so3-direct-sampler-axis-from-cube', ['C14', 'C11'], ['C14.so3'])
+case('c10-rn-interpolate-reads-the-next-component', ['C10'], ['C10.component'],
+     ('oxmpl/src/base/spaces/real_vector_state_space.rs', "            out_state.values[i] = from.values[i] + (to.values[i] - from.values[i]) * t;",
+      "            out_state.values[i] = from.values[i] + (to.values[(i + 1) % to.values.len()] - from.values[i]) * t;"))
